@@ -11,13 +11,17 @@ extern "C" {
 }
 using namespace vf; using namespace ref;
 
+extern "C" int __lsan_do_recoverable_leak_check(void);
+// LeakSanitizer scans stacks and registers conservatively: stale copies of a lost pointer in dead stack slots hide the leak. Overwrite the region below the caller first.
+static __attribute__((noinline)) void scrubStack() { volatile unsigned char pad[65536]; for (size_t i = 0; i < sizeof pad; i++) pad[i] = 0; __asm__ __volatile__("" ::: "memory"); }
 extern "C" const char *harness_id() { return "C18"; }
 size_t harness_max_len() { return 400; }
+static const char *kOidPrivate = "1.3.6.1.4.1.55555.7"; /* an attribute type outside the crypto library's built-in object table */
 static Ident g_s4; static const std::string kNulCN = std::string("KSI Test Signer 4") + '\0' + "hidden";
 void harness_init() {
     TestPki &p = TestPki::get(); for (int i = 0; i < 4; i++) registerOpaque(p.s[i].der); registerOpaque(p.interA.der); registerOpaque(p.rootA.der);
     // a signer whose common name carries an embedded NUL: no C-string constraint value can equal it
-    g_s4.name = "s4"; g_s4.key = p.s[3].key; g_s4.cert = p.mint(p.rootA, g_s4.key, {{"C", "EE"}, {"O", "Verif Publisher"}, {"CN", kNulCN}, {"emailAddress", "publications@verif.test"}}, "20000101000000Z", "20991231235959Z", 14, false);
+    g_s4.name = "s4"; g_s4.key = p.s[3].key; g_s4.cert = p.mint(p.rootA, g_s4.key, {{"C", "EE"}, {"O", "Verif Publisher"}, {"CN", kNulCN}, {"emailAddress", "publications@verif.test"}, {kOidPrivate, "unit-7"}}, "20000101000000Z", "20991231235959Z", 14, false);
     g_s4.der = TestPki::derOf(g_s4.cert); registerOpaque(g_s4.der);
 }
 static const Ident &signerOf(int i) { return i == 4 ? g_s4 : TestPki::get().s[i]; }
@@ -35,13 +39,13 @@ static const char *kOidEmail = "1.2.840.113549.1.9.1", *kOidCN = "2.5.4.3", *kOi
 static std::string attrOf(int signer, const std::string &oid) {
     static const char *cn[] = {"KSI Test Signer 0", "KSI Test Signer 1", "KSI Test Signer 2", "KSI Test Signer 3"};
     if (oid == kOidCN) return signer == 4 ? kNulCN : cn[signer]; if (oid == kOidEmail) return signer == 2 ? "other@verif.test" : "publications@verif.test";
-    if (oid == kOidO) return signer == 2 ? "Other Publisher" : "Verif Publisher"; if (oid == kOidC) return signer == 2 ? "LV" : "EE"; return "";
+    if (oid == kOidO) return signer == 2 ? "Other Publisher" : "Verif Publisher"; if (oid == kOidC) return signer == 2 ? "LV" : "EE"; if (oid == kOidPrivate) return signer == 4 ? "unit-7" : ""; return "";
 }
 struct Constraint { std::string oid, val; bool matches; std::string how; };
 static Constraint genConstraint(Dec &d, int signer) {
     static const char *oids[] = {kOidEmail, kOidCN, kOidO, kOidC}; Constraint c; unsigned v = d.pick(16);
     if (v == 15) { c.oid = kOidOU; c.val = "Unit"; c.matches = false; c.how = "attribute-absent"; return c; }
-    c.oid = oids[d.pick(4)]; std::string real = attrOf(signer, c.oid); c.val = real; c.matches = true; c.how = "exact";
+    c.oid = signer == 4 ? (d.pick(2) ? kOidPrivate : oids[d.pick(4)]) : oids[d.pick(4)]; std::string real = attrOf(signer, c.oid); c.val = real; c.matches = true; c.how = "exact";
     if (v >= 9) { switch (v) {
         case 9: c.val = real.substr(0, real.size() - 1); c.how = "proper-prefix"; break;
         case 10: c.val = real + "x"; c.how = "extended"; break;
@@ -123,8 +127,13 @@ static void modeStructure(Dec &d, Case &c) {
     if (sep) { bool allMatch = !t.cons.empty(); for (auto &k : t.cons) if (!k.matches) allMatch = false; Constraint k; k.oid = kOidEmail; k.val = allMatch ? "nobody@elsewhere.test" : attrOf(t.signer, kOidEmail); k.matches = !allMatch; k.how = "parse-context"; pcons.push_back(k);
         static const int opposite[] = {1, 0, 3, 2}; configure(parseCtx, opposite[t.anchors], &pcons, pstore); }
     Ctx ctx; Observed ob = observe(file, t, ctx, nullptr, sep ? (KSI_CTX *)parseCtx : nullptr); if (sep) c.cls("verified-under-another-context");
+    // every structure / trust case is followed at once by a leak check (the PKCS#7 element of these files is the untampered output of the test PKI, so the crypto library's own
+    // error paths for malformed signatures are not involved): whatever parsing and verification allocated - object identifiers looked up by name included - must have been released
+    // (a lost block stays lost: once a leak has been reported in this process the check is switched off, so that the case in which it first appeared is the one that is kept)
+    static bool leakSeen = false; bool leaked = false; if (!leakSeen && hasSig && t.range == 0 && chainOk(t)) { /* signature and chain in order: the constraint stage was reached */ scrubStack(); leaked = __lsan_do_recoverable_leak_check() != 0; if (leaked) leakSeen = true; }
     c.desc = std::string(sep ? "parsed-under-another-context " : "") + "records=" + shape + " " + trustStr(t) + " ref=" + (v == T_ACCEPT ? "accept" : v == T_REJECT ? "reject(" + j.why().substr(0, 120) + ")" : "undecided");
     c.nontrivial = true; c.cls(edits || post >= 8 || !hasSig ? "structure:perturbed" : "structure:canonical");
+    if (leaked) { VF_FAIL(c, "C18:leak-after-parse-and-verify", "LeakSanitizer reports blocks lost by parsing / verifying this file (" + c.desc + ")"); return; }
     for (auto &r : j.rules) c.cls("rule-violated:" + r.substr(r.rfind(':') + 1));
     if (v == T_UNKNOWN) { c.cls("ref:undecided"); return; }
     if (v == T_REJECT) { c.cls("expect:parse-refused"); VF_CHECK(c, !ob.parsed, "C18:structure:invalid-accepted:" + j.rules.begin()->substr(j.rules.begin()->rfind(':') + 1), "file violates the structure (" + j.why() + ") but was parsed: " + c.desc); return; }
@@ -137,6 +146,8 @@ static void modeStructure(Dec &d, Case &c) {
     c.cls(expectTrusted ? "expect:trusted" : "expect:not-trusted"); if (t.range) c.cls("signed-range:inexact"); if (!chainOk(t)) c.cls("chain:not-anchored"); if (!consConfigured) c.cls("constraints:none"); else if (!consOk) c.cls("constraints:mismatch"); for (auto &k : t.cons) c.cls("constraint:" + k.how);
     bool trusted = ob.verifyRes == KSI_OK;
     VF_CHECK(c, (ob.verifyRes == KSI_OK) == (ob.verifyRes2 == KSI_OK), "C18:trust:entry-points-disagree", "KSI_PublicationsFile_verify=" + num(ob.verifyRes) + " but KSI_verifyPublicationsFile=" + num(ob.verifyRes2) + ": " + c.desc);
+    // when signature and chain are in order the constraint stage was reached: nothing it allocated (object identifiers looked up by name included) may be left behind
+    if (!c.fail && t.range == 0 && chainOk(t) && consConfigured) { bool priv = false; for (auto &k : t.cons) if (k.oid == kOidPrivate) priv = true; c.cls(priv ? "leak-check:constraints-with-private-oid" : "leak-check:constraints"); }
     if (expectTrusted) VF_CHECK(c, trusted, "C18:trust:valid-not-trusted:res" + num(ob.verifyRes), "correctly signed, anchored and constrained file not trusted res=" + num(ob.verifyRes) + ": " + c.desc);
     else { std::string why = t.range ? "signed-range" : (!chainOk(t) ? "chain" : (!consConfigured ? "no-constraints" : "constraint-" + [&] { for (auto &k : t.cons) if (!k.matches) return k.how; return std::string("?"); }()));
         VF_CHECK(c, !trusted, "C18:trust:untrusted-accepted:" + why, "file reported trusted although " + why + " must fail: " + c.desc); }
